@@ -16,7 +16,7 @@ import z3
 from . import core
 from .core import Num, Fr, EngineError
 
-PI_D = Fr(math.pi)                 # the exact rational value of the double
+PI_D = Fr(repr(math.pi))           # pi as the library's literal enters exact arithmetic everywhere: the decimal 3.141592653589793
 RAD = PI_D / 180                   # radians per degree, as the library computes it (math.radians: x * (pi/180))
 
 
